@@ -5,7 +5,10 @@ and Model/Linear.lean (window selection and least squares): exact recovery theor
 DR/DA, exact characterisation of the selected window, the three-point refusal and the Rouquerol rule.
 Tie: (1) translator validation — the Float copies of the generated formulas against the real functions; (2) correspondence of
 Model/Linear.lean at ℚ with the real raw functions (windows, refusals, regression).  Failing-input search: synthetic isotherms
-from the governing equations (written here independently) through the raw and the isotherm entry points.
+from the governing equations (written here independently) through the raw and the isotherm entry points; the isotherm entry points on
+isotherms stored in every loading / material / pressure / temperature representation, alpha-s with a reference OBJECT of its own in an
+independent representation (section 4); 1- and 2-point tables through every BET / Langmuir / Dubinin entry point with and without limits
+(section 5; Lean: `short_table_refused`).
 """
 import math
 from fractions import Fraction
@@ -208,6 +211,22 @@ def run(ck):
                     ck.fail_case({**sig, "clause": "automatic window refused although it holds three points"}, {"pressure": ps, "loading": ns, "expected": [mn, mx]})
             elif (got[1], got[2]) != (mn, mx):
                 ck.fail_case({**sig, "clause": "automatic BET window is not the Rouquerol window"}, {"pressure": ps, "loading": ns, "expected": [mn, mx], "got": got[1:3]})
+            elif got[2] - got[1] + 1 < 3:
+                ck.fail_case({**sig, "clause": "fit accepted on fewer than three points", "limits": "none"}, {"pressure": ps, "loading": ns, "limits": None, "selected": list(range(got[1], got[2] + 1))})
+        else:
+            # p_limits=None for Langmuir (documented default: 5 %..90 % of the last pressure) and Dubinin (the whole table): the same three
+            # clauses as with user limits (near-ties of the two products were skipped above)
+            d_lo, d_hi = (ps[-1] * 0.05, ps[-1] * 0.9) if kind == "lang" else (None, None)
+            strict, loose = window_oracle(ps, d_lo, d_hi)
+            if got[0] == "refused":
+                if len(strict) >= 3:
+                    ck.fail_case({**sig, "clause": "refused without limits although three or more points lie strictly inside the default region"}, {"pressure": ps, "limits": None, "default": [d_lo, d_hi]})
+            else:
+                sel = list(range(got[1], got[2] + 1))
+                if len(loose) < 3:
+                    ck.fail_case({**sig, "clause": "fit accepted on fewer than three points", "limits": "none"}, {"pressure": ps, "loading": ns, "limits": None, "selected": sel})
+                elif not (set(strict) <= set(sel) <= set(loose)):
+                    ck.fail_case({**sig, "clause": "fitted region without limits is not the default region"}, {"pressure": ps, "limits": None, "default": [d_lo, d_hi], "selected": sel, "inside": strict})
         # regression correspondence on the selected slice
         if got[0] == "ok":
             a, b = got[1], got[2] + 1
@@ -386,86 +405,248 @@ def run(ck):
             ck.fail_case({"method": "DA", "clause": "exact DA data refused"}, {"V0": V0, "E": E, "exp": ex, "error": str(e)[:200]})
 
     # ------------------------------------------------------------------ 4. isotherm entry points
+    reported = {}
+
+    def fail_few(sig, detail, keep=3):
+        """at most `keep` replays per signature (a defect in an entry point fails on every iteration)"""
+        key = repr(sorted(sig.items()))
+        reported[key] = reported.get(key, 0) + 1
+        if reported[key] <= keep:
+            ck.fail_case(sig, detail)
     from pygaps.core.adsorbate import Adsorbate
     ads = Adsorbate.find("N2")
     T = 77.355
     M, rho, cs = ads.molar_mass(), ads.liquid_density(T), ads.get_prop("cross_sectional_area")
-    for i in range(max(6, N // 6)):
+    # stored representations of the isotherm handed to the entry points (all describe the same physical data; measured on the unchanged tree:
+    # every routine reproduces the generating parameters to 1e-9 in each of them).  Loading: every basis with several units, material: mass
+    # units (the synthetic material has no molar mass / density; results are per material unit: factor `f`), pressure: relative, relative%,
+    # absolute in six units, temperature K / °C.
+    L_REPS = ([("molar", u) for u in ("mmol", "mol", "kmol", "cm3(STP)", "mL(STP)", "L(STP)")] + [("mass", u) for u in ("mg", "g", "kg", "cg")]
+              + [("volume_gas", u) for u in ("cm3", "L", "m3")] + [("volume_liquid", u) for u in ("cm3", "mL", "dm3")] + [("percent", None), ("fraction", None)])
+    P_REPS = [("relative", None), ("relative%", None)] + [("absolute", u) for u in ("Pa", "kPa", "bar", "torr", "atm", "mbar")]
+    M_REPS = [("g", 1.0), ("kg", 1e-3), ("mg", 1e3)]
+    PLAIN = {"loading": ("molar", "mmol"), "pressure": ("relative", None), "material": ("g", 1.0), "temperature": "K"}
+    n_entry = max(ck.n(24, 72), N // 6)
+
+    def cycle(reps):
+        """every member in turn, in a random order (stratified: all loading representations are visited within one run)"""
+        while True:
+            order = list(reps)
+            rng.shuffle(order)
+            yield from order
+    smp_cycle, ref_cycle = cycle(L_REPS), cycle(L_REPS)
+
+    def stored(isotherm, rep):
+        """the same isotherm stored in another representation (conversion through the public convert_* methods)"""
+        if rep["material"][0] != "g":
+            isotherm.convert_material(basis_to="mass", unit_to=rep["material"][0])
+        if rep["loading"] != ("molar", "mmol"):
+            isotherm.convert_loading(basis_to=rep["loading"][0], unit_to=rep["loading"][1])
+        if rep["pressure"] != ("relative", None):
+            isotherm.convert_pressure(mode_to=rep["pressure"][0], unit_to=rep["pressure"][1])
+        if rep["temperature"] != "K":
+            isotherm.convert_temperature(unit_to=rep["temperature"])
+        return isotherm
+
+    def rep_label(rep):
+        return {"loading": "/".join(str(x) for x in rep["loading"]), "pressure": "/".join(str(x) for x in rep["pressure"]), "material": rep["material"][0], "temperature": rep["temperature"]}
+
+    for i in range(n_entry):
         ps = grid(rng, rng.choice([12, 20, 40, 100]), 1e-3, 0.9)
         pa = np.array(ps)
         nm, c, k = logu(rng, 1e-4, 1e-1), logu(rng, 2, 2000), logu(rng, 0.5, 500)
+        # one iteration in three in the library's default representation, the others anywhere; the loading representation cycles through all
+        if i % 3 == 0:
+            rep = dict(PLAIN)
+        else:
+            rep = {"loading": next(smp_cycle), "pressure": rng.choice(P_REPS), "material": rng.choice(M_REPS), "temperature": rng.choice(["K", "°C"])}
+        f = rep["material"][1]
+        rl = rep_label(rep)
 
-        def iso(load_mol):
-            return pg.PointIsotherm(pressure=pa, loading=np.asarray(load_mol) * 1000, material="pgv-synth", adsorbate="N2", temperature=T,
-                                    pressure_mode="relative", pressure_unit=None, loading_basis="molar", loading_unit="mmol",
-                                    material_basis="mass", material_unit="g", temperature_unit="K")
-        ck.count(("iso-entry", i), bucket="recover:isotherm entry points", sample={"n_m": nm, "C": c, "K": k, "points": len(ps)} if i == 0 else None)
-        bet_iso = iso(nm * c * pa / ((1 - pa) * (1 - pa + c * pa)))
+        def iso(load_mol, rep=rep, pressure=None):
+            return stored(pg.PointIsotherm(pressure=pa if pressure is None else pressure, loading=np.asarray(load_mol) * 1000, material="pgv-synth", adsorbate="N2", temperature=T,
+                                           pressure_mode="relative", pressure_unit=None, loading_basis="molar", loading_unit="mmol",
+                                           material_basis="mass", material_unit="g", temperature_unit="K"), rep)
+        ck.count(("iso-entry", i), bucket="recover:isotherm entry points:" + ("default representation" if rep == PLAIN else "other stored representation"),
+                 sample={"n_m": nm, "C": c, "K": k, "points": len(ps), "stored": rl} if i in (0, 1) else None)
+        bet_mol = nm * c * pa / ((1 - pa) * (1 - pa + c * pa))
+        bet_iso = iso(bet_mol)
+        area_g = nm * cs * 1e-18 * NA          # m2 per gram; results are per stored material unit: times f
         try:
             r = pgc.area_BET(bet_iso)
-            errs = {"n_monolayer": note("iso.bet.n_m", r["n_monolayer"], nm), "c_const": note("iso.bet.C", r["c_const"], c),
-                    "area": note("iso.bet.area", r["area"], nm * cs * 1e-18 * NA)}
+            errs = {"n_monolayer": note("iso.bet.n_m", r["n_monolayer"] * f, nm), "c_const": note("iso.bet.C", r["c_const"], c),
+                    "area": note("iso.bet.area", r["area"] * f, area_g)}
             bad = {kk: v for kk, v in errs.items() if v > 1e-6}
             if bad:
-                ck.fail_case({"method": "area_BET", "clause": "generating parameters not recovered", "quantity": sorted(bad)[0]}, {"n_m": nm, "C": c, "rel_errors": bad})
-            # alpha-s against itself returns the reference area, for 'BET' and for a numeric reference area
-            lo_hi = (0.2, 5.0)
-            for ra in ("BET", float(r["area"]) * 0.5):
-                try:
-                    rr = pgc.alpha_s(bet_iso, reference_isotherm=bet_iso, reference_area=ra, reducing_pressure=0.4, t_limits=lo_hi)
-                    want = float(r["area"]) if ra == "BET" else ra
-                    if not rr["results"]:
-                        ck.fail_case({"method": "alpha_s", "clause": "alpha-s against itself gives no fit"}, {"reference_area": ra})
-                    elif note("iso.alphas.area", rr["results"][0]["area"], want) > 1e-6:
-                        ck.fail_case({"method": "alpha_s", "clause": "alpha-s against itself does not return the reference area"},
-                                     {"reference_area": ra, "got": float(rr["results"][0]["area"]), "expected": want})
-                except (CalculationError, ParameterError) as e:
-                    ck.fail_case({"method": "alpha_s", "clause": "alpha-s against itself refused", "numeric_reference": ra != "BET"}, {"reference_area": ra, "error": str(e)[:200]})
-                except Exception as e:  # noqa
-                    ck.fail_case({"method": "alpha_s", "clause": "alpha-s raises a non-pyGAPS error", "numeric_reference": ra != "BET", "error": type(e).__name__},
-                                 {"reference_area": ra, "error": repr(e)[:200]})
+                fail_few({"method": "area_BET", "clause": "generating parameters not recovered", "quantity": sorted(bad)[0], "stored": "default" if rep == PLAIN else "other"},
+                             {"n_m": nm, "C": c, "pressure": ps, "stored": rl, "rel_errors": bad})
         except CalculationError as e:
-            ck.fail_case({"method": "area_BET", "clause": "exact BET data refused"}, {"n_m": nm, "C": c, "error": str(e)[:200]})
+            r = None
+            fail_few({"method": "area_BET", "clause": "exact BET data refused"}, {"n_m": nm, "C": c, "stored": rl, "error": str(e)[:200]})
+        # ---------------- alpha-s: the reference is an isotherm object of its own, stored in ITS OWN representation (loading basis / unit and
+        # temperature unit independent of the sample's; same material unit: areas are per material unit).  Known finding S15a (C15) keeps the
+        # reference in relative pressure and the sample in relative / relative% pressure.
+        # TODO(S15a): absolute pressure representations of sample / reference once alpha_s reads the reference at relative pressures.
+        s_, i_ = logu(rng, 0.1, 50), rng.uniform(0.01, 5)
+        if ps[0] < 0.4 < ps[-1]:
+            smp_rep = {**rep, "pressure": rep["pressure"] if rep["pressure"][0] != "absolute" else ("relative", None)}
+            ref_rep = {"loading": ("molar", "mmol") if rep == PLAIN and i % 2 == 0 else next(ref_cycle), "pressure": ("relative", None), "material": rep["material"],
+                       "temperature": "K" if rep == PLAIN else rng.choice(["K", "°C"])}
+            # the reference is measured on a slightly wider grid containing the sample's pressures: a sample pressure that went through relative%
+            # comes back one ulp off and must not fall outside the reference's range (the lookup outside the range is not this property's subject)
+            pr = np.array([ps[0] * 0.9] + ps + [min(ps[-1] * 1.05, 0.95)])
+            ref_mol = nm * c * pr / ((1 - pr) * (1 - pr + c * pr))
+            ref_mmol = bet_mol * 1000
+            a_pt = float(np.interp(0.4, pa, ref_mmol))
+            lo_hi = (float(min(ref_mol * 1000 / a_pt)) * 0.99, float(max(ref_mol * 1000 / a_pt)) * 1.01)
+            info = {"n_m": nm, "C": c, "pressure": ps, "sample_stored": rep_label(smp_rep), "reference_stored": rep_label(ref_rep)}
+            ck.count(("iso-alphas", i), bucket="recover:alpha_s entry point:reference stored in " + ref_rep["loading"][0])
+
+            def run_alphas(what, sample, reference, ra, want_area, want_slope=None, want_volume=None):
+                sig = {"method": "alpha_s", "case": what, "numeric_reference": ra != "BET", "reference_loading_is_mmol": ref_rep["loading"] == ("molar", "mmol")}
+                try:
+                    rr = pgc.alpha_s(sample, reference_isotherm=reference, reference_area=ra, reducing_pressure=0.4, t_limits=lo_hi)
+                except (CalculationError, ParameterError) as e:
+                    fail_few({**sig, "clause": "alpha-s on exact data refused"}, {**info, "reference_area": ra, "error": str(e)[:200]})
+                    return
+                except Exception as e:  # noqa
+                    fail_few({**sig, "clause": "alpha-s raises a non-pyGAPS error", "error": type(e).__name__}, {**info, "reference_area": ra, "error": repr(e)[:200]})
+                    return
+                if not rr["results"]:
+                    fail_few({**sig, "clause": "alpha-s on an exactly straight plot gives no fit"}, {**info, "reference_area": ra, "limits": lo_hi})
+                    return
+                r0 = rr["results"][0]
+                errs = {"area": note("iso.alphas.area", r0["area"], want_area)}
+                if want_slope is not None:
+                    errs["slope"] = note("iso.alphas.slope", r0["slope"], want_slope)
+                    errs["adsorbed_volume"] = note("iso.alphas.volume", r0["adsorbed_volume"], want_volume)
+                bad = {kk: v for kk, v in errs.items() if v > 1e-6}
+                if bad:
+                    clause = "alpha-s against itself does not return the reference area" if what != "sample against reference" else "generating parameters not recovered"
+                    fail_few({**sig, "clause": clause, "quantity": sorted(bad)[0]},
+                                 {**info, "reference_area": ra, "slope": s_, "intercept": i_, "got": {kk: float(r0[kk]) for kk in ("area", "slope", "intercept", "adsorbed_volume")},
+                                  "expected_area": want_area, "rel_errors": bad})
+
+            self_iso = iso(ref_mol, ref_rep, pressure=pr)
+            twin = iso(ref_mol, {**ref_rep, "loading": smp_rep["loading"], "temperature": smp_rep["temperature"]}, pressure=pr)
+            num_area = rng.uniform(1, 2000)
+            try:
+                r = pgc.area_BET(self_iso)
+                if note("iso.bet.area(reference)", r["area"] * f, area_g) > 1e-6:
+                    fail_few({"method": "area_BET", "clause": "generating parameters not recovered", "quantity": "area", "stored": "reference of alpha-s"},
+                                 {"n_m": nm, "C": c, "pressure": pr.tolist(), "stored": rep_label(ref_rep), "got": float(r["area"]), "expected": area_g / f})
+            except CalculationError:
+                r = None
+            # (a) the reference against itself: the same object; (b) against a second object describing the same data in another representation
+            for what, smp in (("same object", self_iso), ("same data, two objects", twin)):
+                run_alphas(what, smp, self_iso, num_area, num_area)
+                if r is not None:
+                    run_alphas(what, smp, self_iso, "BET", float(r["area"]))
+            # (c) a sample that is exactly linear in the reduced reference curve: slope, area = A_ref / n_ref(0.4) * slope, volume from the intercept
+            sample = iso((s_ * ref_mmol / a_pt + i_) / 1000, smp_rep)
+            run_alphas("sample against reference", sample, self_iso, num_area, num_area / a_pt * s_, s_ / f, i_ * M / rho / 1000 / f)
+            if r is not None:
+                run_alphas("sample against reference", sample, self_iso, "BET", area_g / a_pt * s_ / f, s_ / f, i_ * M / rho / 1000 / f)
+        else:
+            ck.count(("iso-alphas-skip", i), nontrivial=False, bucket="recover:alpha_s entry point:skipped (0.4 outside the grid)")
         try:
             r = pgc.area_langmuir(iso(nm * k * pa / (1 + k * pa)))
-            errs = {"n_monolayer": note("iso.lang.n_m", r["n_monolayer"], nm), "langmuir_const": note("iso.lang.K", r["langmuir_const"], k),
-                    "area": note("iso.lang.area", r["area"], nm * cs * 1e-18 * NA)}
+            errs = {"n_monolayer": note("iso.lang.n_m", r["n_monolayer"] * f, nm), "langmuir_const": note("iso.lang.K", r["langmuir_const"], k),
+                    "area": note("iso.lang.area", r["area"] * f, area_g)}
             bad = {kk: v for kk, v in errs.items() if v > 1e-6}
             if bad:
-                ck.fail_case({"method": "area_langmuir", "clause": "generating parameters not recovered", "quantity": sorted(bad)[0]}, {"n_m": nm, "K": k, "rel_errors": bad})
+                fail_few({"method": "area_langmuir", "clause": "generating parameters not recovered", "quantity": sorted(bad)[0], "stored": "default" if rep == PLAIN else "other"},
+                             {"n_m": nm, "K": k, "pressure": ps, "stored": rl, "rel_errors": bad})
         except CalculationError:
             pass
-        s_, i_ = logu(rng, 0.1, 50), rng.uniform(0.01, 5)
         tcurve = mt.thickness_halsey(pa)
         r = pgc.t_plot(iso((s_ * tcurve + i_) / 1000), thickness_model="Halsey", t_limits=(float(tcurve[0]) * 0.99, float(tcurve[-1]) * 1.01))
         if not r["results"]:
-            ck.fail_case({"method": "t_plot", "clause": "exact straight t-plot not fitted"}, {"slope": s_, "intercept": i_})
+            fail_few({"method": "t_plot", "clause": "exact straight t-plot not fitted"}, {"slope": s_, "intercept": i_, "stored": rl})
         else:
             r0 = r["results"][0]
-            errs = {"slope": note("iso.tplot.slope", r0["slope"], s_), "intercept": note("iso.tplot.intercept", r0["intercept"], i_),
-                    "area": note("iso.tplot.area", r0["area"], s_ * M / rho), "adsorbed_volume": note("iso.tplot.volume", r0["adsorbed_volume"], i_ * M / rho / 1000)}
+            errs = {"slope": note("iso.tplot.slope", r0["slope"] * f, s_), "intercept": note("iso.tplot.intercept", r0["intercept"] * f, i_),
+                    "area": note("iso.tplot.area", r0["area"] * f, s_ * M / rho), "adsorbed_volume": note("iso.tplot.volume", r0["adsorbed_volume"] * f, i_ * M / rho / 1000)}
             bad = {kk: v for kk, v in errs.items() if v > 1e-6}
             if bad:
-                ck.fail_case({"method": "t_plot", "clause": "generating parameters not recovered", "quantity": sorted(bad)[0]}, {"slope": s_, "intercept": i_, "rel_errors": bad})
+                fail_few({"method": "t_plot", "clause": "generating parameters not recovered", "quantity": sorted(bad)[0], "stored": "default" if rep == PLAIN else "other"},
+                             {"slope": s_, "intercept": i_, "pressure": ps, "stored": rl, "rel_errors": bad})
         V0, E, ex = rng.uniform(0.05, 1.5), rng.uniform(3, 25), rng.uniform(1, 3)
         pd_ = pa[pa < 0.4]
         if len(pd_) >= 5:
             nd = V0 * rho / M * np.exp(-(R * T * (-np.log(pd_)) / (1000 * E)) ** ex)
-            d_iso = pg.PointIsotherm(pressure=pd_, loading=nd * 1000, material="pgv-synth", adsorbate="N2", temperature=T, pressure_mode="relative", pressure_unit=None,
-                                     loading_basis="molar", loading_unit="mmol", material_basis="mass", material_unit="g", temperature_unit="K")
-            r = pgc.da_plot(d_iso, exp=ex)
-            errs = {"pore_volume": note("iso.da.V0", r["pore_volume"], V0), "adsorption_potential": note("iso.da.E", r["adsorption_potential"], E)}
+            r = pgc.da_plot(iso(nd, pressure=pd_), exp=ex)
+            errs = {"pore_volume": note("iso.da.V0", r["pore_volume"] * f, V0), "adsorption_potential": note("iso.da.E", r["adsorption_potential"], E)}
             bad = {kk: v for kk, v in errs.items() if v > 1e-6}
             if bad:
-                ck.fail_case({"method": "da_plot", "clause": "generating parameters not recovered", "quantity": sorted(bad)[0]}, {"V0": V0, "E": E, "exp": ex, "rel_errors": bad})
+                fail_few({"method": "da_plot", "clause": "generating parameters not recovered", "quantity": sorted(bad)[0], "stored": "default" if rep == PLAIN else "other"},
+                             {"V0": V0, "E": E, "exp": ex, "pressure": pd_.tolist(), "stored": rl, "rel_errors": bad})
             nd2 = V0 * rho / M * np.exp(-(R * T * (-np.log(pd_)) / (1000 * E)) ** 2)
-            d_iso2 = pg.PointIsotherm(pressure=pd_, loading=nd2 * 1000, material="pgv-synth", adsorbate="N2", temperature=T, pressure_mode="relative", pressure_unit=None,
-                                      loading_basis="molar", loading_unit="mmol", material_basis="mass", material_unit="g", temperature_unit="K")
-            r = pgc.dr_plot(d_iso2)
-            if max(note("iso.dr.V0", r["pore_volume"], V0), note("iso.dr.E", r["adsorption_potential"], E)) > 1e-6:
-                ck.fail_case({"method": "dr_plot", "clause": "generating parameters not recovered"}, {"V0": V0, "E": E, "got": [float(r["pore_volume"]), float(r["adsorption_potential"])]})
+            r = pgc.dr_plot(iso(nd2, pressure=pd_))
+            if max(note("iso.dr.V0", r["pore_volume"] * f, V0), note("iso.dr.E", r["adsorption_potential"], E)) > 1e-6:
+                fail_few({"method": "dr_plot", "clause": "generating parameters not recovered", "stored": "default" if rep == PLAIN else "other"},
+                             {"V0": V0, "E": E, "pressure": pd_.tolist(), "stored": rl, "got": [float(r["pore_volume"]), float(r["adsorption_potential"])]})
+
+    # ------------------------------------------------------------------ 5. tiny tables: a BET, Langmuir or Dubinin fit on fewer than three points is refused
+    # with a calculation error — whatever the limits (none at all, (None, None), one-sided, 0, all-including), through raw and isotherm entry points.
+    # (Measured on the unchanged tree: every one of these calls raises CalculationError; the t-plot / alpha-s routines are not in this clause.)
+    def tiny_limits(ps_):
+        lo, hi = ps_[0] * rng.uniform(0.1, 0.9), min(ps_[-1] * rng.uniform(1.1, 3), 0.999)
+        return [None, (None, None), (0, hi), (None, hi), (lo, None), (lo, hi), (0, 0), limits(rng, ps_, allow_none=False)]
+
+    for i in range(ck.n(3, 12)):
+        for npts in (1, 2, 3):
+            ps = grid(rng, npts, 1e-3, 0.35) if npts > 1 else [rng.uniform(1e-3, 0.35)]
+            if len(ps) != npts:
+                continue
+            pa = np.array(ps)
+            nm, c, k = logu(rng, 1e-4, 1e-1), logu(rng, 2, 2000), logu(rng, 0.5, 500)
+            V0, E, ex = rng.uniform(0.05, 1.5), rng.uniform(3, 25), rng.uniform(1, 3)
+            tables = {"bet": nm * c * pa / ((1 - pa) * (1 - pa + c * pa)), "lang": nm * k * pa / (1 + k * pa),
+                      "da": V0 * rho / M * np.exp(-(R * T * (-np.log(pa)) / (1000 * E)) ** ex)}
+
+            def tiny_iso(load_mol):
+                return pg.PointIsotherm(pressure=pa, loading=np.asarray(load_mol) * 1000, material="pgv-synth", adsorbate="N2", temperature=T, pressure_mode="relative", pressure_unit=None,
+                                        loading_basis="molar", loading_unit="mmol", material_basis="mass", material_unit="g", temperature_unit="K")
+            for lim in tiny_limits(ps):
+                calls = [("area_BET_raw", "bet", lambda: ab.area_BET_raw(pa, tables["bet"], cs, lim)),
+                         ("area_langmuir_raw", "lang", lambda: la.area_langmuir_raw(pa, tables["lang"], cs, lim)),
+                         ("da_plot_raw", "da", lambda: da.da_plot_raw(pa, tables["da"], T, M, rho, exp=ex, p_limits=lim)),
+                         ("da_plot_raw(exp=None)", "da", lambda: da.da_plot_raw(pa, tables["da"], T, M, rho, exp=None, p_limits=lim)),
+                         ("area_BET", "bet", lambda: pgc.area_BET(tiny_iso(tables["bet"]), p_limits=lim)),
+                         ("area_langmuir", "lang", lambda: pgc.area_langmuir(tiny_iso(tables["lang"]), p_limits=lim)),
+                         ("dr_plot", "da", lambda: pgc.dr_plot(tiny_iso(tables["da"]), p_limits=lim)),
+                         ("da_plot", "da", lambda: pgc.da_plot(tiny_iso(tables["da"]), exp=ex, p_limits=lim)),
+                         ("da_plot(exp=None)", "da", lambda: pgc.da_plot(tiny_iso(tables["da"]), exp=None, p_limits=lim))]
+                for name, table, call in calls:
+                    if npts == 3 and not (name in ("da_plot_raw", "da_plot") and lim in (None, (None, None))):
+                        continue        # three points: only the edge "a Dubinin fit of a whole three-point table is accepted and exact" is decided here
+                    try:
+                        out = call()
+                        got = ("ok", out)
+                    except CalculationError:
+                        got = ("refused", None)
+                    except Exception as e:  # noqa
+                        got = ("error", f"{type(e).__name__}: {str(e)[:120]}")
+                    lim_kind = "none" if lim is None else "given"
+                    ck.count(("tiny", name, npts, lim_kind, got[0]), bucket=f"tiny table:{npts} point(s):limits {lim_kind}:{got[0]}")
+                    detail = {"routine": name, "pressure": ps, "loading_mol_per_g": [float(v) for v in tables[table]], "limits": lim, "temperature": T}
+                    if npts < 3 and got[0] == "ok":
+                        fail_few({"method": name, "clause": "fit accepted on fewer than three points", "limits": lim_kind, "table": "fewer than three points in total"},
+                                     {**detail, "returned": repr(out)[:300]})
+                    elif npts < 3 and got[0] == "error":
+                        fail_few({"method": name, "clause": "fit on fewer than three points ends in a non-pyGAPS error instead of a calculation error", "limits": lim_kind}, {**detail, "error": got[1]})
+                    elif npts == 3:
+                        if got[0] != "ok":
+                            fail_few({"method": name, "clause": "exact three-point Dubinin table without limits not fitted", "outcome": got[0]}, {**detail, "error": got[1]})
+                        else:
+                            v0_got, e_got = (out["pore_volume"], out["adsorption_potential"]) if isinstance(out, dict) else (out[0], out[1])
+                            if max(note("tiny.da.V0", v0_got, V0), note("tiny.da.E", e_got, E)) > 1e-6:
+                                fail_few({"method": name, "clause": "generating parameters not recovered", "table": "three points, no limits"}, {**detail, "V0": V0, "E": E, "exp": ex, "got": [float(v0_got), float(e_got)]})
     ck.cov["worst_relative_errors"] = {k: float(f"{v:.3g}") for k, v in sorted(worst.items())}
     ck.cov["rule"] = ("generating parameters log-uniform over the quantifier's ranges (n_m 1e-4..1e-1, C 2..2000, K 0.5..500, DA volume/energy/exponent 1..3), grids of 5-100 increasing relative pressures "
-                      "(random, linear, geometric), manual limits anywhere incl. exactly on data points / 0 / None, raw and isotherm entry points; window correspondence also on 1-4 point arrays and noisy data")
+                      "(random, linear, geometric), manual limits anywhere incl. exactly on data points / 0 / None, raw and isotherm entry points; window correspondence also on 1-4 point arrays and noisy data; isotherm entry points on isotherms stored in every loading basis "
+                      "(molar incl. cm3(STP), mass, gas / liquid volume, percent, fraction), mass material units, relative / relative% / absolute pressure and K / °C, the alpha-s reference an object of its own in an "
+                      "independent loading representation (pressure of the alpha-s pair relative only: S15a); 1- and 2-point tables through every BET / Langmuir / Dubinin entry point with and without limits")
     ck.assumptions += ["scipy.stats.linregress computes the ordinary least-squares line (compared with the exact ℚ model to 1e-7)",
                        "scipy.optimize.minimize_scalar for the DA exponent is numerical (checked to 2e-3)", "CoolProp liquid density / molar mass are inputs"]
